@@ -80,6 +80,26 @@ class C06(F.Check):
                                      key=key, family="implicit_conv")
                         ks.append(c)
                         self.convs.append((c.name, r1, r2, kk, key, tag))
+        # 'equivalently, whether unit-only .as(u)/.in(u) and mixed-unit comparison/addition compile': same-rep probes whose
+        # acceptance by the compiler must coincide with the predicate (lowering-stage facts)
+        self.parity = []
+        for r in REPS10:
+            rs = ratios_for(r, self.tier)
+            for j, ratio in enumerate(rs):
+                if ratio >= (1 << 63) or (self.tier == "quick" and j % 2):
+                    continue
+                exp = expected_permit(r, r, ratio)
+                u1 = runit(ratio)
+                tagp = "%s_%d" % (r.replace("_t", ""), j)
+                key = {"R": r, "ratio": str(ratio), "expected_to_compile": exp}
+                # a mixed-unit comparison converts BOTH operands to the common unit (1/q meters for ratio p/q): factors p and q
+                exp_cmp = expected_permit(r, r, Fraction(ratio.numerator)) and expected_permit(r, r, Fraction(ratio.denominator))
+                for fam, body, rt, ex in (("in", "return make_quantity<%s>(x).in(Meters{});" % u1, r, exp),
+                                          ("cmp", "return make_quantity<%s>(x) < make_quantity<Meters>(x);" % u1, "bool", exp_cmp)):
+                    k = F.Kernel("c06_parity_%s_%s" % (fam, tagp), rt, [(r, "x")], body, key=dict(key, form=fam, expected_to_compile=ex),
+                                 family="policy_parity_" + fam)
+                    ks.append(k)
+                    self.parity.append((k.name, ex, k.key, fam, tagp))
         # dimension mismatch and point analogue (closed)
         extra = [
             ("std::is_convertible<Quantity<Meters, int32_t>, Quantity<Seconds, int32_t>>::value", False, "dimension mismatch int"),
@@ -122,6 +142,18 @@ class C06(F.Check):
                     return T.TRUE, T.and_(T.not_(e.ub), T.eq(e.ret, T.const_bool(exp)))
                 obs.append(F.Ob("predicate:%s:%s" % (what, tag), [], fn, kind="closed", key=key, kernels=[nm],
                                 note="trait value equals the documented predicate"))
+        for nm, exp, key, fam, tagp in self.parity:
+            dropped = K[nm].kernel.dropped
+            if exp and dropped:
+                ob = F.Ob("policy_parity:%s:%s" % (fam, tagp), [], None, kind="closed", key=dict(key, compile_error=dropped[:200]), kernels=[nm],
+                          note="the predicate permits this conversion, so the unit-only form / mixed comparison must compile")
+                ob.status = "lowering-failed"
+                obs.append(ob)
+            else:
+                def fnp(K, exp=exp, dropped=bool(dropped)):
+                    return T.TRUE, T.const_bool(exp != dropped)
+                obs.append(F.Ob("policy_parity:%s:%s" % (fam, tagp), [], fnp, kind="closed", key=key, kernels=[nm],
+                                note="unit-only .in(u) / mixed-unit comparison is accepted by the compiler exactly when the predicate is true"))
         for nm, exp, key in self.extra:
             if K[nm].kernel.dropped:
                 self.lowering_failures.append(("extra", key, K[nm].kernel.dropped[:160]))
